@@ -91,8 +91,8 @@ Definition sql_rename (now : Z) (key newkey : bytes) : M unit :=
            (fun r => with_mtime (with_ver (with_key r newkey) (k_ver r + 1)) now) d1, Ok tt)
     end.
 
-(* core.Key.Exists: Key != "" *)
-Definition key_struct_exists (r : keyrow) : bool := negb (String.eqb (k_key r) "").
+(* core.Key.Exists: ID != 0 *)
+Definition key_struct_exists (r : keyrow) : bool := negb (k_id r =? 0).
 
 Definition key_rename (now : Z) (key newkey : bytes) : M unit :=
   oldk <- key_get now key ;;
